@@ -98,6 +98,28 @@ Proof.
   apply filter_In in H. destruct H as [H _]. apply In_remove_id in H. tauto.
 Qed.
 
+(* a save that fails is retried: the mark survives the failed round, and the next round of the save loop stores the port *)
+Lemma fold_saves : forall live id l acc,
+  (In id l /\ mem id live = true) \/ In id acc ->
+  In id (fold_left (fun acc x => if mem x live then add_id x acc else acc) l acc).
+Proof.
+  intros live id. induction l as [| x l IH]; intros acc H; simpl.
+  - destruct H as [[[] _] | H]. exact H.
+  - apply IH. destruct H as [[[E | H] M] | H].
+    + subst x. right. rewrite M. apply In_add_id. auto.
+    + left. auto.
+    + right. destruct (mem x live); [apply In_add_id; auto | exact H].
+Qed.
+
+Theorem failed_save_is_retried : forall h id,
+  In id (h_pending h) -> In id (h_live h) ->
+  In id (h_pending (step h (OSaveFailed id)))
+  /\ (let h' := step (step h (OSaveFailed id)) OSaveAll in In id (st_ports h') /\ h_pending h' = []).
+Proof.
+  intros h id P L. simpl. split; [exact P |]. split; [| reflexivity].
+  apply fold_saves. left. split; [exact P | apply mem_In; exact L].
+Qed.
+
 (* ---------------------------------------------------------------- device *)
 Theorem device_roundtrip : forall eh d0 d, wf_device d -> device_load eh d0 (device_save d) = d.
 Proof.
